@@ -14,6 +14,9 @@ THEOREMS = [
     "Mtv.Client.every_content_message_acked",
     "Mtv.Client.every_content_message_acked_no_faults",
     "Mtv.Client.ack_enabled",
+    "Mtv.Client.nested_members_acked",
+    "Mtv.Client.contentIds_in_gotOdd",
+    "Mtv.Client.run_gotOdd_mono",
     # the goroutine-level model and its refinement of the machine above (Props/ClientImpl.lean)
     "Mtv.Impl.impl_refines_spec",
     "Mtv.Impl.impl_matches_source",
@@ -23,7 +26,7 @@ THEOREMS = [
     "Mtv.Impl.impl_mutual_exclusion",
     "Mtv.Impl.impl_wire_ordered",
 ]
-RULE = ('scenarios with 1..10 (thorough 24) concurrent callers and content-related server traffic (updates, new_session_created, unknown objects, truncated bodies, containers of them); the frames arriving at the peer are checked: msg_id multiple of four, derived from the current time, strictly increasing in arrival order, odd seq_no for requests and even for acks, seq_no non-decreasing, every odd-seq server message (alone or in a container) named by a later msgs_ack. Callers send every request type of the MTProto service schema an application can pass to MakeRequest (ping, ping_delay_disconnect, msgs_state_req and msg_resend_req with one and several ids, req_pq, req_DH_params, set_client_DH_params, rpc_drop_answer, get_future_salts, destroy_session) - one after the other with acknowledgements in between, all at once, mixed with pings, across a salt rotation and a reconnection; the seq_no parity of each is judged by the own table of the harness of content-related constructors written from the MTProto description (everything except msgs_ack and msg_container). Server msg_ids anywhere in the unsigned 64-bit range (bit 63 set, just below 2^64, near zero) must be acknowledged under the id they came with. The peer checks every client message byte for byte (a request is exactly the serialisation of its type for the tag of the caller, written by hand from the schema line - ping#7abe77ec ping_id by default -, an acknowledgement exactly msgs_ack with a non-empty Vector<long> and nothing behind it), also for requests and acknowledgements encoded while another write is in progress. distinct = distinct scenarios')
+RULE = ('scenarios with 1..10 (thorough 24) concurrent callers and content-related server traffic (updates, new_session_created, unknown objects, truncated bodies, containers of them); the frames arriving at the peer are checked: msg_id multiple of four, derived from the current time, strictly increasing in arrival order, odd seq_no for requests and even for acks, seq_no non-decreasing, every odd-seq server message (alone or in a container) named by a later msgs_ack. Acknowledgement bookkeeping across nested and successive containers: every shape of a container holding 1..3 inner containers (nested up to the limit of four levels) with content-related and other members before / inside / after the inner ones is enumerated (quick: up to 7 members; all C/N combinations up to 4 members beside one inner container), each as the first container of the connection, after itself and a larger flat container, after single messages and after 1, 2, 3 earlier containers (flat, nested, without content); msgs_ack / pong / empty / truncated members and empty inner containers between the content-related ones; results of waiting callers inside inner containers; the same msg_id delivered again in a second container or deeper in the same one (each delivery must be named by an acknowledgement). Callers send every request type of the MTProto service schema an application can pass to MakeRequest (ping, ping_delay_disconnect, msgs_state_req and msg_resend_req with one and several ids, req_pq, req_DH_params, set_client_DH_params, rpc_drop_answer, get_future_salts, destroy_session) - one after the other with acknowledgements in between, all at once, mixed with pings, across a salt rotation and a reconnection; the seq_no parity of each is judged by the own table of the harness of content-related constructors written from the MTProto description (everything except msgs_ack and msg_container). Server msg_ids anywhere in the unsigned 64-bit range (bit 63 set, just below 2^64, near zero) must be acknowledged under the id they came with. The peer checks every client message byte for byte (a request is exactly the serialisation of its type for the tag of the caller, written by hand from the schema line - ping#7abe77ec ping_id by default -, an acknowledgement exactly msgs_ack with a non-empty Vector<long> and nothing behind it), also for requests and acknowledgements encoded while another write is in progress. distinct = distinct scenarios')
 
 
 def run(ctx):
